@@ -260,6 +260,17 @@ def fam_deepstack(rng):
     return rs, cfg, gen
 
 
+def fam_arraymore(rng):
+    """%array scanners whose actions call yymore(): the copy into yytext[] at yy_more_offset happens in
+    YY_DO_BEFORE_ACTION, which runs again after a back-up (full/fast tables), in trailing-context
+    epilogues and after REJECT"""
+    rs = rules.gen_ruleset(rng, p_trail=rng.choice([0.0, 0.3]))
+    rej = rng.random() < 0.25
+    cfg = rt.Config(ledger=rng.random() < 0.3, backend=_backend(rng), topt=_compressed(rng) if rej else rng.choice(TOPTS),
+                    interactive=rng.choice([None, False]), yymore=True, array=True, reject=rej)
+    return rs, cfg, _ops_case(kinds=['more', 'more', 'input', 'return'] + (['reject'] if rej else []), small=not rej)
+
+
 def fam_unput(rng):
     rs = rules.gen_ruleset(rng, p_trail=0.0)
     cfg = rt.Config(ledger=rng.random() < 0.5, backend=_backend(rng, cxx=True), topt=rng.choice(TOPTS), interactive=rng.choice([None, False]),
@@ -462,4 +473,4 @@ def fam_matrix(rng, idx):
 
 
 FAMILIES = {'buffers': fam_buffers, 'include': fam_include, 'plain': fam_plain, 'ops': fam_ops, 'unput': fam_unput, 'reject': fam_reject,
-            'lineno': fam_lineno, 'trail': fam_trail, 'eof': fam_eof, 'deepstack': fam_deepstack, 'reads': fam_reads, 'bufreq': fam_bufreq}
+            'lineno': fam_lineno, 'trail': fam_trail, 'eof': fam_eof, 'deepstack': fam_deepstack, 'reads': fam_reads, 'bufreq': fam_bufreq, 'arraymore': fam_arraymore}
